@@ -7,6 +7,12 @@ evaluated on the same inputs.  Per case:
   impl exit vs spec                       -> VIOLATION (or a recorded known finding)
   printed violation lines vs analyze      -> VIOLATION
   impl (exit, issue count, lines, status messages, enabled analyses) vs model -> broken tie
+Target lists (layout "list"): one tree (two directories, one of them with a sub-directory, two plain files) and every list of
+one or two targets over {directory, directory, nested directory, file, file, file inside a directory}, every directory/file
+pattern of three targets, repeated and nested targets, missing targets in every position, relative / ./ / absolute / trailing
+slash / dir/../ spellings, from inside and outside the tree; the violating code sits in each file of the tree in turn (and in
+none, and in all).  Expected = the model / spec on the union of the files the targets select, and what `pyscn analyze`
+reports for the same targets.
 """
 import os
 import re
@@ -143,6 +149,13 @@ def analyse_project(ck, proj, d, extra_cfg=None):
     if data is None:
         ck.broken_ties.append("pyscn analyze produced no report for project %s (rc=%s): %s" % (proj.name, rc, err[-300:]))
         return None
+    return canon_report(data)
+
+
+ANALYZE_OPTS = ["--select", "complexity,deadcode", "--min-complexity", "1", "--min-severity", "info"]
+
+
+def canon_report(data):
     funcs, finds, cycles = [], [], []
     for f in ((data.get("complexity") or {}).get("Functions") or []):
         funcs.append((base(f["FilePath"]), f["StartLine"], f["Name"], f["Metrics"]["Complexity"]))
@@ -161,13 +174,17 @@ def analyse_project(ck, proj, d, extra_cfg=None):
 # cases
 # ----------------------------------------------------------------------------------------------
 def mk_case(proj, select=None, maxcx=None, allow_dead=False, skip_clones=False, allow_circ=False, maxcyc=None, quiet=False,
-            cfg=None, layout="in", decoy=None, explicit=None, target_missing=False, order=None):
+            cfg=None, layout="in", decoy=None, explicit=None, target_missing=False, order=None, targets=None, spell=None,
+            cfg_at=None, cwd_out=False, shared=False):
     """cfg / decoy / explicit: dict with optional keys max, min, sev (values as written to the TOML file).
     layout: in (cwd = project, target .), out (cwd elsewhere, target ../proj), noargs (cwd = project, no target at all),
-    split (the project in two directories one/ and two/, both given as targets in the order `order`)."""
+    split (the project in two directories one/ and two/, both given as targets in the order `order`),
+    list (a ListProject; targets = names of ATOMS, spell = how each is written, cwd_out = run from a directory next to the tree,
+    cfg_at = root / da: where the config file lies; shared = run in the read-only copy of the tree that all such cases of one
+    placement share, without the extra `pyscn analyze` run on the same targets)."""
     return dict(proj=proj, select=select, maxcx=maxcx, allow_dead=allow_dead, skip_clones=skip_clones, allow_circ=allow_circ,
                 maxcyc=maxcyc, quiet=quiet, cfg=cfg, layout=layout, decoy=decoy, explicit=explicit, target_missing=target_missing,
-                order=order)
+                order=order, targets=targets, spell=spell, cfg_at=cfg_at, cwd_out=cwd_out, shared=shared)
 
 
 def toml_of(c):
@@ -327,6 +344,161 @@ def random_project(rng, i):
 
 
 # ----------------------------------------------------------------------------------------------
+# target lists: one tree, every shape of target list over it, the violating code in every file in turn
+# ----------------------------------------------------------------------------------------------
+DEFAULT_MAX_CX = 10          # cross-checked against the Coq model's effective threshold (mv[7][0]) on every case
+LIST_OK_CX = DEFAULT_MAX_CX          # every file has a function exactly at the default limit
+LIST_BAD_CX = DEFAULT_MAX_CX + 2     # a violating file has one function two above it (so limit+1 still fails, limit+2 passes)
+LIST_FILES = ["da/da_mod.py", "da/sub/da_sub_mod.py", "db/db_mod.py", "fa.py", "fb.py"]
+# target atoms: name -> (path relative to the tree root, kind: d directory, f file, m missing)
+ATOMS = {"DA": ("da", "d"), "DB": ("db", "d"), "SUB": ("da/sub", "d"), "FA": ("fa.py", "f"), "FB": ("fb.py", "f"),
+         "NF": ("da/da_mod.py", "f"), "MISSF": ("nosuch.py", "m"), "MISSD": ("nosuch_dir", "m")}
+PLACEMENTS = [("none", ())] + [(base(f)[:-3], (f,)) for f in LIST_FILES] + [("all", tuple(LIST_FILES))]
+SPELLINGS = ("rel", "dot", "abs", "slash", "dotdot")
+
+
+class ListProject:
+    """The target-list tree; `bad` = the files (relative paths) that hold a function above the limit and critical dead code."""
+    mock = False
+    empty = False
+    n_cycles = 0
+
+    def __init__(self, name, bad):
+        self.name = "list_" + name
+        self.bad = set(bad)
+        self.files = {}
+        self.cx = []
+        for rel in LIST_FILES:
+            stem = base(rel)[:-3]
+            s = fn_complexity(stem + "_ok", LIST_OK_CX) + fn_dead_warning(stem + "_warn")
+            self.cx.append(LIST_OK_CX)
+            if rel in self.bad:
+                s = fn_complexity(stem + "_big", LIST_BAD_CX) + s + fn_dead_critical(stem + "_crit")
+                self.cx.append(LIST_BAD_CX)
+            self.files[rel] = s
+
+    def write(self, d):
+        for rel, c in self.files.items():
+            p = os.path.join(d, rel)
+            os.makedirs(os.path.dirname(p), exist_ok=True)
+            with open(p, "w") as f:
+                f.write(c)
+
+
+def list_selection(case):
+    """(relative paths of the files the target list selects, how often each is named when every target is a plain file,
+    some target missing).  A directory selects every file below it, a file itself; a file reached through several targets
+    is one file."""
+    files, named = set(), {}
+    kinds = [ATOMS[t][1] for t in case["targets"]]
+    for t in case["targets"]:
+        rel, kind = ATOMS[t]
+        for f in case["proj"].files:
+            if (kind == "f" and f == rel) or (kind == "d" and f.startswith(rel + "/")):
+                files.add(f)
+        if kind == "f":
+            named[rel] = named.get(rel, 0) + 1
+    only_files = all(k == "f" for k in kinds)
+    return files, (named if only_files else {}), "m" in kinds
+
+
+def list_analysis(case, tree_an):
+    """The analysis results of the union of the selected files, cut out of the analysis of the whole tree."""
+    files, _, missing = list_selection(case)
+    if missing:
+        return {"functions": [], "findings": [], "cycles": [], "error": True}
+    names = {base(f) for f in files}
+    return {"functions": [f for f in tree_an["functions"] if f[0] in names],
+            "findings": [f for f in tree_an["findings"] if f[0] in names], "cycles": [], "error": False}
+
+
+def list_overlap(case):
+    """some file is reached through more than one target (a target twice, or a target inside another)"""
+    seen = set()
+    for t in case["targets"]:
+        rel, kind = ATOMS[t]
+        fs = {f for f in LIST_FILES if (kind == "f" and f == rel) or (kind == "d" and f.startswith(rel + "/"))}
+        if fs & seen:
+            return True
+        seen |= fs
+    return False
+
+
+def spell_target(rel, kind, mode, pd, cwd_out):
+    if mode == "abs":
+        return os.path.join(pd, rel)
+    if mode == "dot":
+        s = "./" + rel
+    elif mode == "slash" and kind == "d":
+        s = rel + "/"
+    elif mode == "dotdot" and kind != "m":
+        s = os.path.join("db", "..", rel)
+    else:
+        s = rel
+    return os.path.join("..", "proj", s) if cwd_out else s
+
+
+def target_lists():
+    """Every list of one and two targets over the six atoms (that includes a target twice, a directory with a file or a
+    directory inside it, in both orders), every directory/file pattern of three targets, three-target lists with repeats and
+    nesting, and a missing target in every position next to directories and files."""
+    six = ["DA", "DB", "SUB", "FA", "FB", "NF"]
+    ls = [(a,) for a in six] + [(a, b) for a in six for b in six]
+    for pat in range(8):
+        ds, fs = iter(["DA", "DB", "SUB"]), iter(["FA", "FB", "NF"])
+        ls.append(tuple(next(ds) if (pat >> (2 - i)) & 1 == 0 else next(fs) for i in range(3)))
+    ls += [("DA", "NF", "DA"), ("NF", "DA", "NF"), ("FA", "FA", "FA"), ("NF", "FA", "NF"), ("SUB", "DA", "FB"), ("FB", "SUB", "NF"),
+           ("DA", "FA", "DA"), ("FA", "DA", "FA"), ("DB", "DB", "FB"), ("FB", "FB", "DB")]
+    for m in ("MISSF", "MISSD"):
+        ls += [(m, "DA"), ("DA", m), (m, "FA"), ("FA", m), ("DA", m, "FA"), ("FA", "DA", m), (m, "FA", "DA")]
+    return ls
+
+
+LIST_BASE = dict(select=["complexity", "deadcode"])
+LIST_PROFILES = [
+    dict(skip_clones=True),
+    dict(),
+    dict(select=["complexity"], maxcx=LIST_BAD_CX - 1),
+    dict(select=["complexity"], maxcx=LIST_BAD_CX),
+    dict(select=["complexity"], maxcx=LIST_OK_CX - 1),
+    dict(select=["deadcode"]),
+    dict(allow_dead=True, skip_clones=True),
+    dict(select=["complexity", "deadcode"], quiet=True),
+    dict(select=["complexity"], cfg={"max": LIST_BAD_CX}, cfg_at="root"),
+    dict(select=["complexity"], cfg={"max": LIST_BAD_CX}, cfg_at="da"),
+    dict(select=["complexity", "deadcode", "clones"], cfg={"max": LIST_BAD_CX - 1}, cfg_at="root", allow_dead=True),
+]
+
+
+def list_cases(rng, LP, thorough):
+    """Base pass: every target list x every placement of the violating code, plainly spelled, complexity + dead code.
+    Variation pass: per list, other flag profiles / spellings / working directory with the placement rotating (thorough: all)."""
+    cs = []
+    lists = target_lists()
+    for li, L in enumerate(lists):
+        missing = any(ATOMS[t][1] == "m" for t in L)
+        for pname, _ in PLACEMENTS:
+            if missing and pname not in ("none", "all", "da_mod", "fa"):
+                continue
+            # analyze on the same targets is run where every file has violations of its own to show; the other placements of this
+            # pass share one read-only tree per placement
+            cs.append(mk_case(LP[pname], layout="list", targets=L, spell=("rel",) * len(L), shared=(pname != "all"), **LIST_BASE))
+        profs = [p for p in LIST_PROFILES if not (missing and "cfg" in p)]
+        picks = list(range(len(profs))) if thorough else sorted(rng.sample(range(len(profs)), 2))
+        for k in picks:
+            pname = PLACEMENTS[(li + k) % len(PLACEMENTS)][0] if not missing else ("all", "da_mod", "fa")[(li + k) % 3]
+            how = (li + k) % 4
+            if how == 0:
+                sp = ("abs",) * len(L)
+            elif how == 1:
+                sp = ("dot",) * len(L)
+            else:
+                sp = tuple(rng.choice(SPELLINGS) for _ in L)
+            cs.append(mk_case(LP[pname], layout="list", targets=L, spell=sp, cwd_out=(how == 3 or rng.random() < 0.2), **profs[k]))
+    return cs
+
+
+# ----------------------------------------------------------------------------------------------
 # running the implementation
 # ----------------------------------------------------------------------------------------------
 RE_CX = re.compile(r"^(.+?):(\d+):(\d+): (\S+) is too complex \((-?\d+) > (-?\d+)\)$")
@@ -395,15 +567,18 @@ def run_case_impl(args):
     d = os.path.join(root, "case%04d" % idx)
     shutil.rmtree(d, ignore_errors=True)
     pd = os.path.join(d, "proj")
-    if case["layout"] == "split":
+    if case["shared"]:
+        pd = os.path.join(root, "shared_" + case["proj"].name, "proj")      # written once in main, never written to by a run
+    elif case["layout"] == "split":
         case["proj"].write_split(pd)
     else:
         case["proj"].write(pd)
     if case["cfg"] is not None:
-        with open(os.path.join(pd, ".pyscn.toml"), "w") as f:
+        with open(os.path.join(pd, "da" if case["cfg_at"] == "da" else "", ".pyscn.toml"), "w") as f:
             f.write(toml_of(case["cfg"]))
     rund = os.path.join(d, "run")
-    os.makedirs(rund, exist_ok=True)
+    if not case["shared"]:
+        os.makedirs(rund, exist_ok=True)
     if case["layout"] == "noargs":
         # a trap next to the project: without a target argument only the working directory is checked
         with open(os.path.join(d, "outside_trap.py"), "w") as f:
@@ -437,6 +612,9 @@ def run_case_impl(args):
         cwd, targets = pd, []
     elif case["layout"] == "split":
         cwd, targets = pd, list(case["order"])
+    elif case["layout"] == "list":
+        cwd = rund if case["cwd_out"] else pd
+        targets = [spell_target(ATOMS[t][0], ATOMS[t][1], m, pd, case["cwd_out"]) for t, m in zip(case["targets"], case["spell"])]
     else:
         cwd, targets = rund, [os.path.join("..", "proj")]
     if case["target_missing"]:
@@ -447,7 +625,17 @@ def run_case_impl(args):
         # the same run without --quiet: tells how many clone pairs / mock findings there are, and must agree on the verdict
         rc2, _, err2 = lib.pyscn([a for a in argv if a != "--quiet"] + targets, cwd, timeout=120)
         res["loud_rc"], res["loud"] = rc2, parse_stderr(err2)
-    shutil.rmtree(d, ignore_errors=True)
+    if case["layout"] == "list" and not case["shared"]:
+        # what analyze reports for the same targets, spelled the same way, from the same working directory.  The config file is
+        # taken away first: it only holds check's limit (analyze refuses a max_complexity below its medium threshold), and the
+        # functions / findings analyze reports do not depend on it (verified on the boundary project in main)
+        if case["cfg"] is not None:
+            os.remove(os.path.join(pd, "da" if case["cfg_at"] == "da" else "", ".pyscn.toml"))
+        rca, data, erra = lib.analyze_json(cwd, ANALYZE_OPTS + targets[:-1], target=targets[-1], timeout=120)
+        res["same_targets"] = canon_report(data) if data is not None else None
+        res["same_targets_rc"], res["same_targets_err"] = rca, erra[-300:]
+    if not case["shared"]:
+        shutil.rmtree(d, ignore_errors=True)
     return res
 
 
@@ -466,6 +654,13 @@ def coq_cfg(c):
 def effective_configs(case):
     """(explicit, found from the target upward, found from the cwd upward) as the harness laid the files out."""
     tgt = case["cfg"]
+    if case["layout"] == "list":
+        # the config file is looked up from the FIRST target upward (check.go:136-140), then from the working directory
+        first = ATOMS[case["targets"][0]][0]
+        at = case["cfg_at"]
+        tgt = case["cfg"] if at == "root" or (at == "da" and (first + "/").startswith("da/")) else None
+        cwdc = case["cfg"] if at == "root" and not case["cwd_out"] else None
+        return case["explicit"], tgt, cwdc
     if case["layout"] in ("in", "noargs", "split"):
         cwdc = case["cfg"]
     else:
@@ -512,7 +707,7 @@ def py_spec(case, an):
     cfg = ex if ex is not None else (tg if tg is not None else cw)
     eff = case["maxcx"]
     if eff is None:
-        eff = cfg["max"] if cfg and cfg.get("max", 0) > 0 else 10
+        eff = cfg["max"] if cfg and cfg.get("max", 0) > 0 else DEFAULT_MAX_CX
     effcyc = case["maxcyc"] if case["maxcyc"] is not None else 0
     ok = True
     if not sel or "complexity" in sel:
@@ -536,7 +731,7 @@ def selected(case, name, default):
 
 
 def describe(case):
-    d = {k: v for k, v in case.items() if k != "proj"}
+    d = {k: v for k, v in case.items() if k not in ("proj", "an")}
     d["project"] = {"name": case["proj"].name, "files": case["proj"].files}
     return d
 
@@ -579,6 +774,7 @@ def main(tier):
     }
     rprojs = [random_project(rng, i) for i in range(n_rand_proj)]
     all_projects = list(P.values()) + rprojs
+    LP = {name: ListProject(name, bad) for name, bad in PLACEMENTS}
 
     root = lib.fresh_dir("c19")
     if not getattr(ck, "go_ok", False):
@@ -587,7 +783,7 @@ def main(tier):
     # ---- analysis results per project (config-free tree), plus once with a [complexity] section present
     an = {}
     with ThreadPoolExecutor(max_workers=8) as ex:
-        futs = {p.name: ex.submit(analyse_project, ck, p, os.path.join(root, "an_" + p.name)) for p in all_projects}
+        futs = {p.name: ex.submit(analyse_project, ck, p, os.path.join(root, "an_" + p.name)) for p in all_projects + list(LP.values())}
         for n, f in futs.items():
             an[n] = f.result()
     a2 = analyse_project(ck, P["boundary"], os.path.join(root, "an_boundary_cfg"), "[complexity]\nmax_complexity = 25\n")
@@ -610,13 +806,32 @@ def main(tier):
         if len(a["cycles"]) != p.n_cycles:
             ck.notes.append("project %s: expected %d cycles, analyze reports %d" % (p.name, p.n_cycles, len(a["cycles"])))
 
+    for lp in LP.values():
+        a = an.get(lp.name)
+        if a is None:
+            continue
+        for rel in LIST_FILES:
+            got = sorted(f[3] for f in a["functions"] if f[0] == base(rel) and f[2].endswith(("_ok", "_big")))
+            crit = sum(1 for f in a["findings"] if f[0] == base(rel) and f[2] == "critical")
+            want = sorted([LIST_OK_CX] + ([LIST_BAD_CX] if rel in lp.bad else []))
+            if got != want or crit != (1 if rel in lp.bad else 0):
+                ck.notes.append("project %s file %s: expected complexities %s and %d critical finding(s), analyze reports %s and %d"
+                                % (lp.name, rel, want, 1 if rel in lp.bad else 0, got, crit))
+
     # ---- cases
     cases = core_cases(P)
     n_core = len(cases)
     while len(cases) < budget:
         cases.append(random_case(rng, [p for p in all_projects if not p.empty]))
+    n_list0 = len(cases)
+    cases += list_cases(rng, LP, thorough)
     cases = [c for c in cases if an.get(c["proj"].name) is not None]
+    for c in cases:
+        # the analysis results the case is judged against: the project's, or (target lists) those of the union of the selected files
+        c["an"] = list_analysis(c, an[c["proj"].name]) if c["layout"] == "list" else an[c["proj"].name]
 
+    for lp in LP.values():
+        lp.write(os.path.join(root, "shared_" + lp.name, "proj"))
     with ThreadPoolExecutor(max_workers=16) as ex:
         impls = list(ex.map(run_case_impl, [(i, c, root) for i, c in enumerate(cases)]))
 
@@ -626,13 +841,19 @@ def main(tier):
         try:
             jobs = []
             shard = 60
-            for off in range(0, len(cases), shard):
-                items = [("run_case %s" % coq_input(c, an[c["proj"].name], impls[off + j]))
-                         for j, c in enumerate(cases[off:off + shard])]
+            # many cases give the model the same input (same flags, configs and results): each distinct input is evaluated once
+            inputs = [coq_input(c, c["an"], impls[j]) for j, c in enumerate(cases)]
+            distinct = sorted(set(inputs))
+            for off in range(0, len(distinct), shard):
+                items = ["run_case %s" % x for x in distinct[off:off + shard]]
                 jobs.append(("C19_cases_%d" % off, REQ, "Definition cases := %s.\nEval vm_compute in cases.\n" % clist(items)))
-            model = []
+            vals = []
             for out in lib.coq_eval_many(jobs, workers=12):
-                model += lib.parse_coq_values(out)[0]
+                vals += lib.parse_coq_values(out)[0]
+            if len(vals) != len(distinct):
+                raise RuntimeError("%d model values for %d inputs" % (len(vals), len(distinct)))
+            by_input = dict(zip(distinct, vals))
+            model = [by_input[x] for x in inputs]
         except Exception as e:
             ck.broken_ties.append("model evaluation failed: %s" % str(e)[-1200:])
             model = None
@@ -642,7 +863,7 @@ def main(tier):
     verdicts = {"pass": 0, "fail": 0}
     seen_inputs = set()
     for idx, (case, impl) in enumerate(zip(cases, impls)):
-        a = an[case["proj"].name]
+        a = case["an"]
         p = impl["parsed"]
         rc = impl["rc"]
         verdicts["pass" if rc == 0 else "fail"] += 1
@@ -659,6 +880,8 @@ def main(tier):
                                       % (idx, spec_coq, spec_py))
             spec = spec_coq
             replay["model"] = {"exit": mv[0], "issues": mv[1], "spec": spec_coq, "eff_max_complexity": mv[7][0]}
+            if eff is not None and mv[7][0] != eff:
+                ck.broken_ties.append("effective max complexity of case %d: model %s, harness %s" % (idx, mv[7][0], eff))
         if case["quiet"] and impl.get("loud_rc") is not None and impl["loud_rc"] != rc:
             ck.violation("--quiet changes the exit status: %s with, %s without" % (rc, impl["loud_rc"]), replay)
         if rc not in (0, 1, 2):
@@ -696,18 +919,39 @@ def main(tier):
                 n_spec_bad += 1
                 ck.violation("pyscn check exits 0 although the selected clone analysis could not run", replay)
         # (2) printed violation lines vs analyze
-        if not case["quiet"] and rc in (0, 1) and "MInvalidSelect" not in p["msgs"] and not (a["error"] or case["target_missing"]):
+        is_list = case["layout"] == "list"
+        named = list_selection(case)[1] if is_list else {}
+        repeated = {base(f): n for f, n in named.items() if n > 1}       # plain-file targets named more than once
+        want_cx = sorted((f[0], f[1], f[2], f[3], eff) for f in a["functions"] if eff is not None and f[3] > eff)
+        want_dead = sorted(f for f in a["findings"] if f[2] == "critical")
+        cx_on = selected(case, "complexity", True)
+        dead_on = selected(case, "deadcode", True)
+        judged = rc in (0, 1) and "MInvalidSelect" not in p["msgs"] and not (a["error"] or case["target_missing"])
+        if is_list and judged and repeated:
+            # recorded finding: when every target is a plain file, a file named twice is analysed twice; each of its violations is
+            # printed and counted once per mention (the verdict is unaffected).  Matched only if that is exactly what happened.
+            obs = impl.get("loud") if case["quiet"] else p
+            times = lambda xs: sorted(x for x in xs for _ in range(repeated.get(x[0], 1)))
+            o_cx, o_dead = sorted(obs["cx"]), sorted(obs["dead"])
+            w_cx, w_dead = (want_cx if cx_on else []), (want_dead if dead_on else [])
+            if (o_cx, o_dead) != (w_cx, w_dead) and (o_cx, o_dead) == (times(w_cx), times(w_dead)) and (rc == 0) == spec:
+                e_rep = ck.match_known({"class": "file-target-repeated", "all_targets_plain_files": True,
+                                        "lines_once_per_mention": True, "verdict_correct": True})
+                if e_rep:
+                    n_known += 1
+                    ck.known_finding(e_rep)
+                    judged = False
+                    mv = None
+        if not case["quiet"] and judged:
             bad = None
-            if selected(case, "complexity", True) and "MCxFailed" not in p["msgs"]:
-                want = sorted((f[0], f[1], f[2], f[3], eff) for f in a["functions"] if f[3] > eff)
-                if sorted(p["cx"]) != want:
-                    bad = "complexity lines %s, analyze says functions over %s are %s" % (sorted(p["cx"]), eff, want)
+            if cx_on and "MCxFailed" not in p["msgs"]:
+                if sorted(p["cx"]) != want_cx:
+                    bad = "complexity lines %s, analyze says functions over %s are %s" % (sorted(p["cx"]), eff, want_cx)
             elif p["cx"]:
                 bad = "complexity lines printed although complexity is not selected"
-            if selected(case, "deadcode", True) and "MDeadFailed" not in p["msgs"]:
-                want = sorted(f for f in a["findings"] if f[2] == "critical")
-                if sorted(p["dead"]) != want:
-                    bad = "dead-code lines %s, analyze reports critical findings %s" % (sorted(p["dead"]), want)
+            if dead_on and "MDeadFailed" not in p["msgs"]:
+                if sorted(p["dead"]) != want_dead:
+                    bad = "dead-code lines %s, analyze reports critical findings %s" % (sorted(p["dead"]), want_dead)
             elif p["dead"]:
                 bad = "dead-code lines printed although deadcode is not selected"
             if selected(case, "deps", False) and "MDepsFailed" not in p["msgs"]:
@@ -719,6 +963,31 @@ def main(tier):
                 n_line_bad += 1
                 if n_line_bad <= 3:
                     ck.violation("printed violations differ from what analyze reports: " + bad, replay)
+        # (2b) target lists: `pyscn analyze` with the same targets (same spelling, same working directory)
+        if is_list and not case["shared"]:
+            st = impl.get("same_targets")
+            replay["analyze_same_targets"] = st and {k: st[k] for k in ("functions", "findings")}
+            if a["error"]:
+                if st is not None or impl.get("same_targets_rc") == 0:
+                    ck.broken_ties.append("case %d (%s): a target is missing but pyscn analyze produced a report (rc %s)"
+                                          % (idx, " ".join(impl["argv"]), impl.get("same_targets_rc")))
+            elif st is None:
+                ck.broken_ties.append("case %d (%s): pyscn analyze on the same targets produced no report (rc %s): %s"
+                                      % (idx, " ".join(impl["argv"]), impl.get("same_targets_rc"), impl.get("same_targets_err")))
+            else:
+                if (st["functions"], st["findings"]) != (sorted(a["functions"]), sorted(a["findings"])):
+                    n_tie_bad += 1
+                    ck.broken_ties.append("case %d (%s): pyscn analyze on the same targets reports %s / %s, the union of the selected "
+                                          "files of the whole-tree analysis is %s / %s"
+                                          % (idx, " ".join(impl["argv"]), st["functions"], st["findings"], a["functions"], a["findings"]))
+                if not case["quiet"] and judged:
+                    s_cx = sorted((f[0], f[1], f[2], f[3], eff) for f in st["functions"] if f[3] > eff) if cx_on else []
+                    s_dead = sorted(f for f in st["findings"] if f[2] == "critical") if dead_on else []
+                    if (sorted(p["cx"]), sorted(p["dead"])) != (s_cx, s_dead):
+                        n_line_bad += 1
+                        if n_line_bad <= 3:
+                            ck.violation("printed violations %s %s differ from what `pyscn analyze` reports for the same targets: %s %s"
+                                         % (sorted(p["cx"]), sorted(p["dead"]), s_cx, s_dead), replay)
         # (3) implementation vs model
         if mv is not None:
             m_exit, m_issues, m_err, m_enabled, m_lines, m_msgs = mv[0], mv[1], mv[2], mv[3], mv[4], mv[5]
@@ -762,15 +1031,26 @@ def main(tier):
                     ck.notes.append("case %d model difference: %s" % (idx, "; ".join(diffs)[:800]))
 
     shutil.rmtree(root, ignore_errors=True)
+    lcases = [c for c in cases if c["layout"] == "list"]
+    shapes = {}
+    for c in lcases:
+        k = "".join(ATOMS[t][1] for t in c["targets"])
+        shapes[k] = shapes.get(k, 0) + 1
     ck.samples = [{"argv": impls[i]["argv"], "exit": impls[i]["rc"], "project": cases[i]["proj"].name,
                    "stderr_tail": impls[i]["stderr"].strip().splitlines()[-1:] if impls[i]["stderr"].strip() else []}
-                  for i in (0, 3, 20, 40, min(len(cases) - 1, n_core - 5), len(cases) - 1) if i < len(cases)]
+                  for i in (0, 3, 20, 40, min(len(cases) - 1, n_core - 5), n_list0 - 1, n_list0 + 60, len(cases) - 1) if i < len(cases)]
     ck.cov.update({
         "evaluations": len(cases) + len(all_projects) + 1,
         "distinct_nontrivial": len(seen_inputs),
         "rule": "one evaluation = one `pyscn check` run (exit status + stderr) on a generated project, compared with the spec, with "
-                "`pyscn analyze --json` on the same files and with the Coq model; distinct = distinct (project, flags, config, layout)",
-        "input_distribution": {"core_boundary_cases": n_core, "random_cases": len(cases) - n_core, "projects": len(all_projects),
+                "`pyscn analyze --json` on the same files and with the Coq model; distinct = distinct (project, flags, config, layout, "
+                "target list and its spelling). Target lists: every list of 1 and 2 targets over {2 directories, a nested directory, "
+                "2 plain files, a file inside a directory} (so also a target twice and nested targets in both orders), every "
+                "directory/file pattern of 3 targets, a missing target in every position; for each list the violating code in each "
+                "file of the tree in turn, in none and in all; relative, ./, absolute, trailing-slash and dir/../ spellings, from "
+                "inside and outside the tree; judged against the spec / model on the union of the selected files and against "
+                "`pyscn analyze` run on the very same targets",
+        "input_distribution": {"core_boundary_cases": n_core, "random_cases": n_list0 - n_core, "projects": len(all_projects),
                                "random_projects": len(rprojs), "passed": verdicts["pass"], "failed": verdicts["fail"],
                                "config_in_target": sum(1 for c in cases if c["cfg"] is not None),
                                "cwd_outside_target": sum(1 for c in cases if c["layout"] == "out"),
@@ -778,6 +1058,16 @@ def main(tier):
                                "quiet": sum(1 for c in cases if c["quiet"]),
                                "no_target_argument": sum(1 for c in cases if c["layout"] == "noargs"),
                                "two_targets": sum(1 for c in cases if c["layout"] == "split"),
+                               "target_list_cases": len(lcases),
+                               "target_lists": len({c["targets"] for c in lcases}),
+                               "target_list_shapes": dict(sorted(shapes.items())),
+                               "target_list_violation_placements": len({c["proj"].name for c in lcases}),
+                               "target_list_spellings": {m: sum(1 for c in lcases if m in c["spell"]) for m in SPELLINGS},
+                               "target_list_cwd_outside": sum(1 for c in lcases if c["cwd_out"]),
+                               "target_list_directory_then_file_last": sum(
+                                   1 for c in lcases if "d" in [ATOMS[t][1] for t in c["targets"][:-1]] and ATOMS[c["targets"][-1]][1] == "f"),
+                               "target_list_repeated_or_nested": sum(1 for c in lcases if list_overlap(c)),
+                               "target_list_failing_gate": sum(1 for c, i in zip(cases, impls) if c["layout"] == "list" and i["rc"] != 0),
                                "analysis_cannot_run": sum(1 for c in cases if c["proj"].empty or c["target_missing"])},
         "disagreements_checked": n_spec_bad + n_line_bad + n_tie_bad + n_known,
         "spec_disagreements": n_spec_bad, "line_disagreements": n_line_bad, "model_disagreements": n_tie_bad,
@@ -790,6 +1080,8 @@ def main(tier):
                    "TOML loading and config discovery are modelled only as 'flag given / key present' and 'which file is nearest'",
                    "the analyses themselves are inputs of the model: their results come from `pyscn analyze --json --min-complexity 1 "
                    "--min-severity info` on the same files; clone pairs and mock-data findings are read from check's own output",
+                   "target lists: which files a list of targets selects (a directory = every .py file below it, a file = itself, each "
+                   "file once) is computed by the harness and cross-checked per case against `pyscn analyze` on the same targets",
                    "stderr parser of harness/c19.py"]
     ck.finish(assumptions=["cyclomatic complexities are >= 1", "--max-cycles is not negative",
                            "no pyscn configuration file above the work directory"])
